@@ -8,21 +8,45 @@ def _step(case, i):
 
 def join_full_not_same_named(case, i, detail=None):
     st = _step(case, i)
-    return st[0] == "join" and st[1] == "FULL" and (len(st[2]) == 0 or any(p[0] != p[1] for p in st[2]))
+    return st[0] in ("join", "joinc") and st[1] == "FULL" and (len(st[2]) == 0 or any(p[0] != p[1] for p in st[2]))
 
 
 def join_has_differently_named_keys(case, i, detail=None):
     st = _step(case, i)
-    return st[0] == "join" and any(p[0] != p[1] for p in st[2])
+    return st[0] in ("join", "joinc") and any(p[0] != p[1] for p in st[2])
 
 
 def right_join_differently_named_keys(case, i, detail=None):
     st = _step(case, i)
-    return st[0] == "join" and st[1] == "RIGHT" and any(p[0] != p[1] for p in st[2])
+    return st[0] in ("join", "joinc") and st[1] == "RIGHT" and any(p[0] != p[1] for p in st[2])
+
+
+def stack_tops(case, upto):
+    """spec tables on the pipeline stack BEFORE step `upto` (reconstructed from the recorded tops)"""
+    stack = [case["inp"]["t1"]]
+    for j in range(upto):
+        st, h = case["prog"][j], case["hist"][j]
+        if not h["ok"]:
+            continue
+        if st[0] in ("table", "dup"):
+            stack = stack + [h["top"]]
+        elif st[0] in ("join", "joinc", "concat"):
+            stack = stack[:-2] + [h["top"]]
+        else:
+            stack = stack[:-1] + [h["top"]]
+    return stack
+
+
+def join_with_empty_side(case, i, detail=None):
+    st = _step(case, i)
+    if st[0] not in ("join", "joinc"):
+        return False
+    stk = stack_tops(case, i)
+    return len(stk) >= 2 and (len(stk[-1]["rows"]) == 0 or len(stk[-2]["rows"]) == 0)
 
 
 PREDS = {f.__name__: f for f in (join_full_not_same_named, join_has_differently_named_keys,
-                                 right_join_differently_named_keys)}
+                                 right_join_differently_named_keys, join_with_empty_side)}
 
 
 def classify(case, backend, verdict, findings, prop):
